@@ -56,7 +56,9 @@ def cli_run(prop, tier):
 
 
 PARSER_MC = [mc("MC_Parser", "MC_Parser.cfg", workers=6),
-             mc("MC_Parser", "MC_Parser_cap.cfg", workers=6, tier="thorough")]
+             mc("MC_Parser", "MC_Parser_cap.cfg", workers=6, tier="thorough"),
+             mc("MC_Parser", "MC_Parser_deep.cfg", workers=8, tier="thorough"),      # n <= 4, k <= 5
+             mc("MC_Parser", "MC_Parser_two.cfg", workers=8, tier="thorough")]       # two parser instances
 
 PLANS = {
     "C02": dict(
@@ -162,7 +164,8 @@ PLANS = {
              "history x fuzz-line product, unarmor at every length x fill, 64 types x every length, byte truncations",
         assumptions=["termination is observed by watchdog only (all loops in the crate are bounded `for`s over the input)"]),
     "C17": dict(
-        mc=[mc("MC_Twin", "MC_Twin.cfg"), mc("MC_Twin", "MC_Twin_cap.cfg"),
+        mc=[mc("MC_Twin", "MC_Twin.cfg"), mc("MC_Twin", "MC_Twin_cap.cfg"), mc("MC_Twin", "MC_Twin_deep.cfg", tier="thorough"),
+            mc("MC_Parser", "MC_Parser_two.cfg", workers=8, tier="thorough"),
             mc("MC_Twin", "NC_Twin_fragno.cfg", expect="TwinInv")] + PARSER_MC[:1],
         families=[fam("twin", F.fam_twin, twin_merge=E.tag_twin_merge, need_classes=["reject_form", "reject_checksum", "single", "reject_seq_no", "deliver"])],
         custom=[dict(run=walk_std)],
@@ -188,7 +191,8 @@ PLANS = {
              "build validated against the specification with its own capacities; std and alloc observations zipped and compared "
              "operation by operation; capacity boundaries 383/384/385 bytes, 118/119/120 data bytes, 19/20/21 characters"),
     "C20": dict(
-        mc=[mc("MC_Cli", "MC_Cli.cfg"), mc("MC_Cli", "NC_Cli_utf8.cfg", expect="CliSafety"),
+        mc=[mc("MC_Cli", "MC_Cli.cfg"), mc("MC_Cli", "MC_Cli_deep.cfg", tier="thorough"),
+            mc("MC_Cli", "NC_Cli_utf8.cfg", expect="CliSafety"),
             mc("MC_Cli", "NC_Cli_utf8_live.cfg", expect="CliTerminates")],
         custom=[dict(run=cli_run)],
         rule="CliSafety and termination (liveness under weak fairness) over all streams of <= 4 lines of the CLI process model; the "
